@@ -115,7 +115,13 @@ type instT struct {
 	Unversioned     bool
 }
 
-func pkgOf(uuid, name string) string {
+func pkgOf(uuid, name, typ string) string {
+	if !inProcess {
+		if strings.HasSuffix(typ, "blk") && typ != "labelblk" {
+			return "imageblk" // uint8blk, uint16blk, ... are instances of package imageblk
+		}
+		return typ
+	}
 	d, err := datastore.GetDataByUUIDName(dvid.UUID(uuid), dvid.InstanceName(name))
 	if err != nil {
 		return ""
@@ -135,7 +141,8 @@ type digT struct {
 }
 
 var insts []instT
-var uuidR, uuidV, uuidW, uuidU, uuidX string
+var uuidR, uuidG, uuidP, uuidV, uuidW, uuidU, uuidX string // uuidR = E, the empty root
+var inProcess = true
 var verV, verX dvid.VersionID // the protected (committed) versions
 
 func storesOf() []storage.OrderedKeyValueDB {
